@@ -167,7 +167,7 @@ static void m_apply(int op) {
                 }
             }
             aws_reset_error();
-            int rc = aws_cache_put(C, key, &VO[d.v]);
+            int rc = aws_cache_put(C, key, vptr(d.v));
             ESX_CHECK(rc == AWS_OP_SUCCESS, "put-result", "%s returned %d (error %d)", g_opname, rc, aws_last_error());
             C18_COUNT("puts", 1);
             if (esx_failed) break;
@@ -206,7 +206,7 @@ static void m_apply(int op) {
             aws_reset_error();
             int rc = aws_cache_find(C, key, &out);
             ESX_CHECK(rc == AWS_OP_SUCCESS, "find-result", "%s returned %d (error %d)", g_opname, rc, aws_last_error());
-            void *want = i >= 0 ? (void *)&VO[R[i].v] : NULL;
+            void *want = i >= 0 ? vptr(R[i].v) : NULL;
             if (!esx_failed) {
                 struct vobj *g = as_val(out);
                 ESX_CHECK(out == want, "find-value", "%s gave %s%d, reference says %s%d {%s}", g_opname, out == NULL ? "NULL " : (g ? "v" : "garbage "),
@@ -245,7 +245,7 @@ static void m_apply(int op) {
         }
         case K_USE_LRU: {
             void *got = aws_lru_cache_use_lru_element(C);
-            void *want = nR ? (void *)&VO[R[0].v] : NULL;
+            void *want = nR ? vptr(R[0].v) : NULL;
             struct vobj *g = as_val(got);
             ESX_CHECK(got == want, "use-lru-value", "use_lru_element returned %s%d, the least recently used entry of {%s} holds %s%d", got ? (g ? "v" : "garbage ") : "NULL ",
                       g ? g->id : 0, show_ref(), nR ? "v" : "NULL ", nR ? R[0].v : 0);
@@ -255,7 +255,7 @@ static void m_apply(int op) {
         }
         default: {
             void *got = aws_lru_cache_get_mru_element(C);
-            void *want = nR ? (void *)&VO[R[nR - 1].v] : NULL;
+            void *want = nR ? vptr(R[nR - 1].v) : NULL;
             struct vobj *g = as_val(got);
             ESX_CHECK(got == want, "get-mru-value", "get_mru_element returned %s%d, the most recently used entry of {%s} holds %s%d", got ? (g ? "v" : "garbage ") : "NULL ",
                       g ? g->id : 0, show_ref(), nR ? "v" : "NULL ", nR ? R[nR - 1].v : 0);
@@ -294,10 +294,15 @@ int main(int argc, char **argv) {
     static const char *dname[4] = {"none", "key", "val", "both"};
     static const char *pname[3] = {"fifo", "lifo", "lru"};
     int rc = 0;
+    for (int nullv = 0; nullv < 2; ++nullv)
     for (int p = 0; p < 3; ++p)
         for (size_t mx = 1; mx <= 3; ++mx)
             for (int dm = 0; dm < 4; ++dm)
                 for (int hm = 0; hm < 3; ++hm) {
+                    /* second pass: the same with value v2 stored as a NULL pointer (a cache must tell "present with a NULL
+                     * value" from "absent"; added after a seeded change in the FIFO cache that did not) - both destructors, spread hash */
+                    if (nullv && !(dm == 3 && hm == 0)) continue;
+                    g_null_v = nullv ? NV - 1 : -1;
                     /* quick: destructors none/both, spread hash (+ the colliding hash at max_items 2).  thorough adds key-only / value-only destructors and, with
                      * both destructors, the two collision hash modes (their slot layouts multiply the state count). */
                     bool in_quick = ((dm == 0 || dm == 3) && hm == 0) || (dm == 3 && hm == 1 && mx == 2);
@@ -310,7 +315,7 @@ int main(int argc, char **argv) {
                     g_hmode = hm;
                     g_nk = NK;
                     g_nv = NV;
-                    snprintf(g_name, sizeof(g_name), "%s-m%zu-d%s-h%d-k%dv%d", pname[p], mx, dname[dm], hm, g_nk, g_nv);
+                    snprintf(g_name, sizeof(g_name), "%s-m%zu-d%s-h%d-k%dv%d%s", pname[p], mx, dname[dm], hm, g_nk, g_nv, nullv ? "-nullv" : "");
                     model.name = g_name;
                     build_ops();
                     model.nops = nops;
